@@ -3,116 +3,561 @@
   (geometry/rtree.go:136) computes the model's `splitEntries` on the USED slots of the node, in
   the same order, and the two rects it returns are the model's `recalcBoxes` of the two halves
   (whenever that half is not empty; see `split_eq` and the remark before it for the empty case).
+  Groundwork (generic loop simulations, `recalc`, `largestAxis`): IndexGlueRSplit2.lean.
 -/
-import GeoProofs.Glue.IndexGlueR
+import GeoProofs.Glue.IndexGlueRSplit2
 
-namespace Geo.IGlue
+set_option linter.unusedVariables false
+
+/- the helpers live in `Geo.IGlue.RSplit` (no collisions with the sibling bridge files); the results
+   `split_eq_gen`, `split_eq`, `split_right_empty` are in `Geo.IGlue` -/
+namespace Geo.IGlue.RSplit
 open Geo Geo.IGen
 open scoped Geo.KNum
 
-/-! ## the model's loop, one step at a time -/
+/-! ## the generated split: its loop bodies, named (verbatim copies of the generated text;
+   `split_unfold` below checks by `rfl` that they are the terms in the generated definition) -/
 
-section Model
-variable {β : Type}
+section Bodies
+variable {F S SR D : Type} [KNum F]
 
-/-- one pass of `splitLoop` (for `i < left.length`) on the tuple (left, i, right, equals) -/
-def splitStep (cls : β → Nat) (st : List β × Nat × List β × List β) : List β × Nat × List β × List β :=
-  match st with
-  | (left, i, right, equals) =>
-    match left[i]? with
-    | none => st
-    | some e =>
-      match cls e with
-      | 0 => (left, i + 1, right, equals)
-      | c => ((left.set i (left.getLast?.getD e)).dropLast, i,
-              (if c == 1 then right ++ [e] else right), (if c == 1 then equals else equals ++ [e]))
+abbrev SplitSt (F : Type) := IGen.RRect F × List (IGen.RRect F) × Dyn F × Int
 
-theorem splitLoop_succ (cls : β → Nat) (m : Nat) (left : List β) (i : Nat) (right equals : List β)
-    (h : i < left.length) :
-    splitLoop cls (m + 1) left i right equals =
-      (match splitStep cls (left, i, right, equals) with
-       | (l, j, r, e) => splitLoop cls m l j r e) := by
-  rw [splitLoop]
-  simp only [h, ↓reduceDIte, splitStep, List.getElem?_eq_getElem]
-  split <;> simp_all
+def splitCond : SplitSt F → Option Bool :=
+  fun (right, equals, r_data, i) => (
+              do
+                let dn5 ← Dyn.asRNode r_data
+                some (decide (i < dn5.count))
+            )
 
-theorem splitLoop_done (cls : β → Nat) (m : Nat) (left : List β) (i : Nat) (right equals : List β)
-    (h : ¬ i < left.length) :
-    splitLoop cls m left i right equals = (left, right, equals) := by
-  cases m with
-  | zero => rfl
-  | succ m => rw [splitLoop]; simp [h]
+def splitBody (axis : Int) (r_min0 r_min1 r_max0 r_max1 : F) :
+    SplitSt F → Option (Flow (SplitSt F) (IGen.RRect F × IGen.RRect F)) :=
+  (fun (right, equals, r_data, i) => (
+              do
+                let dn6 ← Dyn.asRNode r_data
+                let el7 ← listAt dn6.rects i
+                let el8 ← arrSel2 el7.min0 el7.min1 axis
+                let el9 ← arrSel2 r_min0 r_min1 axis
+                let minDist := (el8 -ₖ el9)
+                let el10 ← arrSel2 r_max0 r_max1 axis
+                let dn11 ← Dyn.asRNode r_data
+                let el12 ← listAt dn11.rects i
+                let el13 ← arrSel2 el12.max0 el12.max1 axis
+                let maxDist := (el10 -ₖ el13)
+                let (right, equals, r_data, i) ← (
+                    do
+                      if (minDist <ₖ maxDist) then
+                        some (right, equals, r_data, i)
+                      else
+                        do
+                          let (right, equals) ← (
+                              do
+                                if (minDist >ₖ maxDist) then
+                                  do
+                                    let dn14 ← Dyn.asRNode r_data
+                                    let el15 ← listAt dn14.rects i
+                                    let dn16 ← Dyn.asRNode right.data
+                                    let dn17 ← Dyn.asRNode right.data
+                                    let ls18 ← listSet dn17.rects dn16.count el15
+                                    let right := (RRect.mk (Dyn.rNode (IGen.RNode.mk dn17.count ls18)) right.min0 right.min1 right.max0 right.max1)
+                                    let dn19 ← Dyn.asRNode right.data
+                                    let dn20 ← Dyn.asRNode right.data
+                                    let right := (RRect.mk (Dyn.rNode (IGen.RNode.mk (dn19.count + 1) dn20.rects)) right.min0 right.min1 right.max0 right.max1)
+                                    some (right, equals)
+                                else
+                                  do
+                                    let dn21 ← Dyn.asRNode r_data
+                                    let el22 ← listAt dn21.rects i
+                                    let equals := (equals ++ [el22])
+                                    some (right, equals)
+                            )
+                          let dn23 ← Dyn.asRNode r_data
+                          let dn24 ← Dyn.asRNode r_data
+                          let el25 ← listAt dn23.rects (dn24.count - 1)
+                          let dn26 ← Dyn.asRNode r_data
+                          let ls27 ← listSet dn26.rects i el25
+                          let r_data := (Dyn.rNode (IGen.RNode.mk dn26.count ls27))
+                          let dn28 ← Dyn.asRNode r_data
+                          let ix29 := (dn28.count - 1)
+                          let dn30 ← Dyn.asRNode r_data
+                          let el31 ← listAt dn30.rects ix29
+                          let ls32 ← listSet dn30.rects ix29 (RRect.mk Dyn.nil el31.min0 el31.min1 el31.max0 el31.max1)
+                          let r_data := (Dyn.rNode (IGen.RNode.mk dn30.count ls32))
+                          let dn33 ← Dyn.asRNode r_data
+                          let dn34 ← Dyn.asRNode r_data
+                          let r_data := (Dyn.rNode (IGen.RNode.mk (dn33.count - 1) dn34.rects))
+                          let i := (i - 1)
+                          some (right, equals, r_data, i)
+                  )
+                let i := (i + 1)
+                some (Flow.next (right, equals, r_data, i))
+            ))
 
-/-- the measure `left.length - i` drops by one in each pass -/
-theorem splitStep_measure (cls : β → Nat) (left : List β) (i : Nat) (right equals : List β)
-    (h : i < left.length) :
-    (splitStep cls (left, i, right, equals)).1.length - (splitStep cls (left, i, right, equals)).2.1
-      = left.length - i - 1 := by
-  simp only [splitStep, List.getElem?_eq_getElem h]
-  split
-  · simp; omega
-  · simp; omega
+def splitEqBody : IGen.RRect F → Dyn F × IGen.RRect F → Option (Dyn F × IGen.RRect F) :=
+  (fun b (r_data, right) => (
+                    do
+                      let dn38 ← Dyn.asRNode r_data
+                      let dn39 ← Dyn.asRNode right.data
+                      if decide (dn38.count < dn39.count) then
+                        do
+                          let dn40 ← Dyn.asRNode r_data
+                          let dn41 ← Dyn.asRNode r_data
+                          let ls42 ← listSet dn41.rects dn40.count b
+                          let r_data := (Dyn.rNode (IGen.RNode.mk dn41.count ls42))
+                          let dn43 ← Dyn.asRNode r_data
+                          let dn44 ← Dyn.asRNode r_data
+                          let r_data := (Dyn.rNode (IGen.RNode.mk (dn43.count + 1) dn44.rects))
+                          some (r_data, right)
+                      else
+                        do
+                          let dn45 ← Dyn.asRNode right.data
+                          let dn46 ← Dyn.asRNode right.data
+                          let ls47 ← listSet dn46.rects dn45.count b
+                          let right := (RRect.mk (Dyn.rNode (IGen.RNode.mk dn46.count ls47)) right.min0 right.min1 right.max0 right.max1)
+                          let dn48 ← Dyn.asRNode right.data
+                          let dn49 ← Dyn.asRNode right.data
+                          let right := (RRect.mk (Dyn.rNode (IGen.RNode.mk (dn48.count + 1) dn49.rects)) right.min0 right.min1 right.max0 right.max1)
+                          some (r_data, right)
+                  ))
 
-end Model
+end Bodies
 
-/-! ## generic simulation of `loopW` by `splitLoop`, of `loopM` by `distributeEquals` -/
+section Unfold
+variable {F S SR D : Type} [KNum F] (ops : Ops F S SR D)
 
-section Sim
-variable {β σ ρ : Type}
+/-- the zero `rRect` of a fresh `rNode` -/
+def zeroRect : IGen.RRect F :=
+  RRect.mk Dyn.nil (KNum.ofNat 0 : F) (KNum.ofNat 0 : F) (KNum.ofNat 0 : F) (KNum.ofNat 0 : F)
 
-theorem loopW_splitLoop (cls : β → Nat) (cond : σ → Option Bool) (body : σ → Option (Flow σ ρ))
-    (abs : σ → List β × Nat × List β × List β) (Inv : σ → Prop)
-    (hcond : ∀ s, Inv s → cond s = some (decide ((abs s).2.1 < (abs s).1.length)))
-    (hbody : ∀ s, Inv s → (abs s).2.1 < (abs s).1.length →
-      ∃ s', body s = some (Flow.next s') ∧ Inv s' ∧ abs s' = splitStep cls (abs s)) :
-    ∀ (n g m : Nat) (s : σ), Inv s → (abs s).1.length - (abs s).2.1 = n → n < g → n ≤ m →
-      ∃ s', loopW g s cond body = some (Exit.done s') ∧ Inv s' ∧
-        ((abs s').1, (abs s').2.2.1, (abs s').2.2.2)
-          = splitLoop cls m (abs s).1 (abs s).2.1 (abs s).2.2.1 (abs s).2.2.2 := by
-  intro n
-  induction n with
-  | zero =>
-    intro g m s hI hn hg _
-    obtain ⟨g, rfl⟩ : ∃ g', g = g' + 1 := ⟨g - 1, by omega⟩
-    have hlt : ¬ (abs s).2.1 < (abs s).1.length := by omega
-    refine ⟨s, ?_, hI, ?_⟩
-    · rw [loopW, hcond s hI]; simp [hlt]
-    · rw [splitLoop_done _ _ _ _ _ _ hlt]
-  | succ n ih =>
-    intro g m s hI hn hg hm
-    obtain ⟨g, rfl⟩ : ∃ g', g = g' + 1 := ⟨g - 1, by omega⟩
-    obtain ⟨m, rfl⟩ : ∃ m', m = m' + 1 := ⟨m - 1, by omega⟩
-    have hlt : (abs s).2.1 < (abs s).1.length := by omega
-    obtain ⟨s1, hb, hI1, ha1⟩ := hbody s hI hlt
-    have hmeas := splitStep_measure cls (abs s).1 (abs s).2.1 (abs s).2.2.1 (abs s).2.2.2 hlt
-    have hmeas' : (abs s1).1.length - (abs s1).2.1 = n := by
-      rw [ha1]; rw [show abs s = ((abs s).1, (abs s).2.1, (abs s).2.2.1, (abs s).2.2.2) from rfl]
+theorem split_unfold (fuel : Nat) (d : Dyn F) (a0 a1 c0 c1 : F) (right : IGen.RRect F) :
+    rRect_splitLargestAxisEdgeSnap ops fuel (RRect.mk d a0 a1 c0 c1) right =
+      (Dyn.asRNode d).bind fun _ =>
+        (loopW fuel
+          ((RRect.mk (Dyn.rNode (IGen.RNode.mk 0 (List.replicate 17 zeroRect)))
+              right.min0 right.min1 right.max0 right.max1 : IGen.RRect F),
+            ([] : List (IGen.RRect F)), d, (0 : Int))
+          splitCond
+          (splitBody (rRect_largestAxis ops (RRect.mk d a0 a1 c0 c1)).1 a0 a1 c0 c1)).bind fun ex =>
+        match ex with
+        | Exit.ret r36 => some r36
+        | Exit.done (right, equals, r_data, _) =>
+          (loopM equals (r_data, right) splitEqBody).bind fun p =>
+            (rRect_recalc ops (RRect.mk p.1 a0 a1 c0 c1)).bind fun nw50 =>
+              match nw50 with
+              | .mk r_data r_min0 r_min1 r_max0 r_max1 =>
+                (rRect_recalc ops p.2).bind fun nw51 =>
+                  some ((RRect.mk r_data r_min0 r_min1 r_max0 r_max1), nw51) := by
+  rfl
+
+end Unfold
+
+/-! ## the abstraction of the loop state, the invariant -/
+
+section Concrete
+variable {F S SR D : Type} [KNum F] [Carrier F] [Compat F]
+
+/-- the class of an entry in the model's `splitEntries` (0 stay left, 1 right, 2 equal) -/
+def mcls (box : GBox F) (e : IGen.RRect F) : Nat :=
+  let axisY : Bool := Carrier.lt (Carrier.sub box.maxx box.minx) (Carrier.sub box.maxy box.miny)
+  let r := rbox e
+  let minDist := if axisY then Carrier.sub r.miny box.miny else Carrier.sub r.minx box.minx
+  let maxDist := if axisY then Carrier.sub box.maxy r.maxy else Carrier.sub box.maxx r.maxx
+  if Carrier.lt minDist maxDist then 0 else if Carrier.lt maxDist minDist then 1 else 2
+
+omit [KNum F] [Compat F] in
+theorem splitEntries_mcls (box : GBox F) (entries : List (IGen.RRect F)) :
+    splitEntries rbox box entries =
+      (match splitLoop (mcls box) (2 * entries.length + 2) entries 0 [] [] with
+       | (l, r, e) => distributeEquals l r e) := rfl
+
+/-- the axis the generated code computes for `box` -/
+def maxis (box : GBox F) : Int :=
+  if Carrier.lt (Carrier.sub box.maxx box.minx) (Carrier.sub box.maxy box.miny) then 1 else 0
+
+def nodeOf : Dyn F → IGen.RNode F
+  | .rNode v => v
+  | _ => IGen.RNode.mk 0 []
+
+def sAbs (s : SplitSt F) : List (IGen.RRect F) × Nat × List (IGen.RRect F) × List (IGen.RRect F) :=
+  (usedSlots (nodeOf s.2.2.1), s.2.2.2.toNat, usedSlots (nodeOf s.1.data), s.2.1)
+
+def sInv (bx : GBox F) (tot : Int) (s : SplitSt F) : Prop :=
+  ∃ ln rn, s.2.2.1 = .rNode ln ∧ s.1.data = .rNode rn ∧ SlotsOK ln ∧ SlotsOK rn ∧
+    0 ≤ s.2.2.2 ∧ s.2.2.2 ≤ ln.count ∧ ln.count + rn.count + s.2.1.length = tot ∧ rbox s.1 = bx ∧
+    (rn.count = 0 → rn.rects[0]? = some zeroRect)
+
+omit [KNum F] [Carrier F] [Compat F] in
+theorem usedSlots_length (nd : IGen.RNode F) (h : SlotsOK nd) : (usedSlots nd).length = nd.count.toNat := by
+  obtain ⟨h1, h2, h3⟩ := h
+  simp only [usedSlots, List.length_take]
+  omega
+
+omit [Carrier F] [Compat F] in
+theorem splitCond_eq (bx : GBox F) (tot : Int) (s : SplitSt F) (h : sInv bx tot s) :
+    splitCond s = some (decide ((sAbs s).2.1 < (sAbs s).1.length)) := by
+  obtain ⟨rt, eqs, d, i⟩ := s
+  obtain ⟨ln, rn, h1, h2, h3, h4, h5, h6, h7, h8⟩ := h
+  simp only at h1 h2 h5 h6 h7 h8
+  subst h1
+  simp only [splitCond, sAbs, nodeOf, usedSlots_length _ h3, bind, asRNode_rNode, Option.bind_some]
+  congr 1
+  apply decide_eq_decide.mpr
+  omega
+
+theorem splitBody_eq (bx rbx : GBox F) (tot : Int) (htot : tot ≤ 17) (s : SplitSt F)
+    (h : sInv rbx tot s) (hlt : (sAbs s).2.1 < (sAbs s).1.length) :
+    ∃ s', splitBody (maxis bx) bx.minx bx.miny bx.maxx bx.maxy s = some (Flow.next s') ∧
+      sInv rbx tot s' ∧ sAbs s' = splitStep (mcls bx) (sAbs s) := by
+  obtain ⟨rt, eqs, d, i⟩ := s
+  obtain ⟨ln, rn, h1, h2, h3, h4, h5, h6, h7, h8⟩ := h
+  simp only at h1 h2 h5 h6 h7 h8
+  subst h1
+  obtain ⟨rd, ra, rb, rc, re⟩ := rt
+  simp only [data_mk] at h2
+  subst h2
+  obtain ⟨cnt, rects⟩ := ln
+  obtain ⟨rcnt, rrects⟩ := rn
+  simp only [sAbs, nodeOf, usedSlots_length _ h3, count_mk, data_mk] at hlt
+  obtain ⟨hl1, hl2, hl3⟩ := h3
+  obtain ⟨hr1, hr2, hr3⟩ := h4
+  simp only [count_mk, rects_mk] at hl1 hl2 hl3 hr1 hr2 hr3 h6 h7
+  have hi : i.toNat < rects.length := by omega
+  have hc1 : (cnt - 1).toNat < rects.length := by omega
+  have hrc : rcnt.toNat < rrects.length := by omega
+  have hax : ∀ (x y : F), arrSel2 x y (maxis bx) =
+      some (if Carrier.lt (Carrier.sub bx.maxx bx.minx) (Carrier.sub bx.maxy bx.miny) then y else x) := by
+    intro x y
+    unfold maxis
+    split <;> rfl
+  simp only [splitBody, bind, asRNode_rNode, Option.bind_some, rects_mk, count_mk, data_mk,
+    listAt_nat rects i h5 hi, hax, min0_mk, min1_mk, max0_mk, max1_mk]
+  have hm : mcls bx rects[i.toNat] =
+      (if (((if Carrier.lt (Carrier.sub bx.maxx bx.minx) (Carrier.sub bx.maxy bx.miny) = true then
+              rects[i.toNat].min1 else rects[i.toNat].min0) -ₖ
+            if Carrier.lt (Carrier.sub bx.maxx bx.minx) (Carrier.sub bx.maxy bx.miny) = true then bx.miny
+            else bx.minx) <ₖ
+          (if Carrier.lt (Carrier.sub bx.maxx bx.minx) (Carrier.sub bx.maxy bx.miny) = true then bx.maxy
+            else bx.maxx) -ₖ
+            if Carrier.lt (Carrier.sub bx.maxx bx.minx) (Carrier.sub bx.maxy bx.miny) = true then
+              rects[i.toNat].max1 else rects[i.toNat].max0) = true then 0
+       else if (((if Carrier.lt (Carrier.sub bx.maxx bx.minx) (Carrier.sub bx.maxy bx.miny) = true then
+              rects[i.toNat].min1 else rects[i.toNat].min0) -ₖ
+            if Carrier.lt (Carrier.sub bx.maxx bx.minx) (Carrier.sub bx.maxy bx.miny) = true then bx.miny
+            else bx.minx) >ₖ
+          (if Carrier.lt (Carrier.sub bx.maxx bx.minx) (Carrier.sub bx.maxy bx.miny) = true then bx.maxy
+            else bx.maxx) -ₖ
+            if Carrier.lt (Carrier.sub bx.maxx bx.minx) (Carrier.sub bx.maxy bx.miny) = true then
+              rects[i.toNat].max1 else rects[i.toNat].max0) = true then 1 else 2) := by
+    simp only [mcls, rbox, KNum.gt]
+    cases Carrier.lt (Carrier.sub bx.maxx bx.minx) (Carrier.sub bx.maxy bx.miny) <;>
+      simp only [Compat.lt, Compat.sub, if_true, if_false, Bool.false_eq_true]
+  generalize ((if Carrier.lt (Carrier.sub bx.maxx bx.minx) (Carrier.sub bx.maxy bx.miny) = true then
+              rects[i.toNat].min1 else rects[i.toNat].min0) -ₖ
+            if Carrier.lt (Carrier.sub bx.maxx bx.minx) (Carrier.sub bx.maxy bx.miny) = true then bx.miny
+            else bx.minx) = mind at hm ⊢
+  generalize ((if Carrier.lt (Carrier.sub bx.maxx bx.minx) (Carrier.sub bx.maxy bx.miny) = true then bx.maxy
+            else bx.maxx) -ₖ
+            if Carrier.lt (Carrier.sub bx.maxx bx.minx) (Carrier.sub bx.maxy bx.miny) = true then
+              rects[i.toNat].max1 else rects[i.toNat].max0) = maxd at hm ⊢
+  have hget : (usedSlots (IGen.RNode.mk cnt rects))[i.toNat]? = some rects[i.toNat] := by
+    simp only [usedSlots, rects_mk, count_mk, List.getElem?_take, hlt, if_true,
+      List.getElem?_eq_getElem hi]
+  have hcnt : cnt.toNat = (cnt - 1).toNat + 1 := by omega
+  -- the swap-remove on the used prefix
+  have hswap : ∀ z : IGen.RRect F,
+      usedSlots (IGen.RNode.mk (cnt - 1)
+        ((rects.set i.toNat rects[(cnt - 1).toNat]).set (cnt - 1).toNat z))
+      = ((usedSlots (IGen.RNode.mk cnt rects)).set i.toNat
+          ((usedSlots (IGen.RNode.mk cnt rects)).getLast?.getD rects[i.toNat])).dropLast := by
+    intro z
+    simp only [usedSlots, rects_mk, count_mk]
+    rw [hcnt]
+    exact swap_remove_take rects (cnt - 1).toNat i.toNat z rects[i.toNat] rects[(cnt - 1).toNat]
+      (by omega) (List.getElem?_eq_getElem hc1)
+  have hlen27 : (cnt - 1).toNat < (rects.set i.toNat rects[(cnt - 1).toNat]).length := by
+    rw [List.length_set]; exact hc1
+  have hrest : ∀ (rt' : IGen.RRect F) (eqs' : List (IGen.RRect F)),
+      ((listAt rects (cnt - 1)).bind fun el25 =>
+        (listSet rects i el25).bind fun ls27 =>
+          (listAt ls27 (cnt - 1)).bind fun el31 =>
+            (listSet ls27 (cnt - 1) (RRect.mk Dyn.nil el31.min0 el31.min1 el31.max0 el31.max1)).bind
+              fun ls32 => some (rt', eqs', Dyn.rNode (IGen.RNode.mk (cnt - 1) ls32), i - 1))
+      = some (rt', eqs', Dyn.rNode (IGen.RNode.mk (cnt - 1)
+          ((rects.set i.toNat rects[(cnt - 1).toNat]).set (cnt - 1).toNat
+            (RRect.mk Dyn.nil (rects.set i.toNat rects[(cnt - 1).toNat])[(cnt - 1).toNat].min0
+              (rects.set i.toNat rects[(cnt - 1).toNat])[(cnt - 1).toNat].min1
+              (rects.set i.toNat rects[(cnt - 1).toNat])[(cnt - 1).toNat].max0
+              (rects.set i.toNat rects[(cnt - 1).toNat])[(cnt - 1).toNat].max1))), i - 1) := by
+    intro rt' eqs'
+    rw [listAt_nat rects (cnt - 1) (by omega) hc1, Option.bind_some,
+      listSet_nat rects i _ h5 hi, Option.bind_some,
+      listAt_nat _ (cnt - 1) (by omega) hlen27, Option.bind_some,
+      listSet_nat _ (cnt - 1) _ (by omega) hlen27, Option.bind_some]
+  have hslots' : ∀ z : IGen.RRect F, SlotsOK (IGen.RNode.mk (cnt - 1)
+      ((rects.set i.toNat rects[(cnt - 1).toNat]).set (cnt - 1).toNat z)) := by
+    intro z
+    refine ⟨?_, ?_, ?_⟩
+    · simp only [rects_mk, List.length_set]; exact hl1
+    · simp only [count_mk]; omega
+    · simp only [count_mk]; omega
+  by_cases c0 : (mind <ₖ maxd) = true
+  · -- class 0: the entry stays, i++
+    rw [if_pos c0] at hm
+    simp only [c0, if_true, Option.bind_some]
+    refine ⟨_, rfl, ⟨_, _, rfl, rfl, ⟨hl1, hl2, hl3⟩, ⟨hr1, hr2, hr3⟩, ?_, ?_, h7, h8⟩, ?_⟩
+    · show 0 ≤ i + 1; omega
+    · show i + 1 ≤ cnt; omega
+    · simp only [sAbs, nodeOf, data_mk, splitStep, hget, hm]
+      congr 2
       omega
-    obtain ⟨s', hl, hI', he⟩ := ih g m s1 hI1 hmeas' (by omega) (by omega)
-    refine ⟨s', ?_, hI', ?_⟩
-    · rw [loopW, hcond s hI]; simp only [hlt, decide_true, hb]; exact hl
-    · rw [he, splitLoop_succ _ _ _ _ _ _ hlt, ha1]
+  · by_cases c1 : (mind >ₖ maxd) = true
+    · -- class 1: the entry moves to the right node
+      rw [if_neg c0, if_pos c1] at hm
+      simp only [c0, c1, if_true, if_false, Bool.false_eq_true, listSet_nat rrects rcnt _ hr2 hrc,
+        Option.bind_some, hrest]
+      refine ⟨_, rfl, ⟨_, _, rfl, rfl, hslots' _, ⟨?_, ?_, ?_⟩, ?_, ?_, ?_, h8.1,
+        fun hz => absurd hz (by simp only [count_mk]; omega)⟩, ?_⟩
+      · simp only [rects_mk, List.length_set]; exact hr1
+      · simp only [count_mk]; omega
+      · simp only [count_mk]; omega
+      · show 0 ≤ i - 1 + 1; omega
+      · show i - 1 + 1 ≤ cnt - 1; omega
+      · simp only [count_mk]; omega
+      · simp only [sAbs, nodeOf, data_mk, splitStep, hget, hm, hswap]
+        have hr : usedSlots (IGen.RNode.mk (rcnt + 1) (rrects.set rcnt.toNat rects[i.toNat]))
+            = usedSlots (IGen.RNode.mk rcnt rrects) ++ [rects[i.toNat]] := by
+          simp only [usedSlots, rects_mk, count_mk]
+          rw [show (rcnt + 1).toNat = rcnt.toNat + 1 by omega]
+          exact take_set_append rrects rcnt.toNat _ hrc
+        rw [hr]
+        simp
+    · -- class 2: the entry goes to `equals`
+      rw [if_neg c0, if_neg c1] at hm
+      simp only [c0, c1, if_false, Bool.false_eq_true, Option.bind_some, hrest]
+      refine ⟨_, rfl, ⟨_, _, rfl, rfl, hslots' _, ⟨hr1, hr2, hr3⟩, ?_, ?_, ?_, h8⟩, ?_⟩
+      · show 0 ≤ i - 1 + 1; omega
+      · show i - 1 + 1 ≤ cnt - 1; omega
+      · simp only [count_mk, List.length_append, List.length_singleton]; omega
+      · simp only [sAbs, nodeOf, data_mk, splitStep, hget, hm, hswap]
+        simp
 
-theorem loopM_distribute {ε : Type} (body : ε → σ → Option σ) (emb : ε → β)
-    (abs : σ → List β × List β) (Inv : Nat → σ → Prop)
-    (hbody : ∀ k s b, Inv (k + 1) s → ∃ s', body b s = some s' ∧ Inv k s' ∧
-      abs s' = (if (abs s).1.length < (abs s).2.length then ((abs s).1 ++ [emb b], (abs s).2)
-                else ((abs s).1, (abs s).2 ++ [emb b]))) :
-    ∀ (eqs : List ε) (s : σ), Inv eqs.length s →
-      ∃ s', loopM eqs s body = some s' ∧ Inv 0 s' ∧
-        abs s' = distributeEquals (abs s).1 (abs s).2 (eqs.map emb) := by
-  intro eqs
-  induction eqs with
-  | nil => intro s hI; exact ⟨s, rfl, hI, rfl⟩
-  | cons b rest ih =>
-    intro s hI
-    obtain ⟨s1, hb, hI1, ha1⟩ := hbody rest.length s b hI
-    obtain ⟨s', hl, hI', he⟩ := ih s1 hI1
-    refine ⟨s', ?_, hI', ?_⟩
-    · rw [loopM, hb]; exact hl
-    · rw [he, ha1, List.map_cons, distributeEquals]
-      split <;> rfl
+/-! ## the distribution of the equal entries -/
 
-end Sim
+def eAbs (s : Dyn F × IGen.RRect F) : List (IGen.RRect F) × List (IGen.RRect F) :=
+  (usedSlots (nodeOf s.1), usedSlots (nodeOf s.2.data))
+
+def eInv (rbx : GBox F) (tot : Int) (k : Nat) (s : Dyn F × IGen.RRect F) : Prop :=
+  ∃ ln rn, s.1 = .rNode ln ∧ s.2.data = .rNode rn ∧ SlotsOK ln ∧ SlotsOK rn ∧
+    ln.count + rn.count + k = tot ∧ rbox s.2 = rbx ∧
+    (rn.count = 0 → rn.rects[0]? = some zeroRect)
+
+omit [Carrier F] [Compat F] in
+theorem splitEqBody_eq (rbx : GBox F) (tot : Int) (htot : tot ≤ 17) (k : Nat)
+    (s : Dyn F × IGen.RRect F) (b : IGen.RRect F) (h : eInv rbx tot (k + 1) s) :
+    ∃ s', splitEqBody b s = some s' ∧ eInv rbx tot k s' ∧
+      eAbs s' = (if (eAbs s).1.length < (eAbs s).2.length then ((eAbs s).1 ++ [id b], (eAbs s).2)
+                else ((eAbs s).1, (eAbs s).2 ++ [id b])) := by
+  obtain ⟨d, rt⟩ := s
+  obtain ⟨ln, rn, h1, h2, h3, h4, h5, h6⟩ := h
+  simp only at h1 h2 h6
+  subst h1
+  obtain ⟨rd, ra, rb, rc, re⟩ := rt
+  simp only [data_mk] at h2
+  subst h2
+  obtain ⟨cnt, rects⟩ := ln
+  obtain ⟨rcnt, rrects⟩ := rn
+  simp only [eAbs, nodeOf, data_mk, usedSlots_length _ h3, usedSlots_length _ h4, count_mk, id]
+  obtain ⟨hl1, hl2, hl3⟩ := h3
+  obtain ⟨hr1, hr2, hr3⟩ := h4
+  simp only [count_mk, rects_mk] at hl1 hl2 hl3 hr1 hr2 hr3 h5
+  simp only [splitEqBody, bind, asRNode_rNode, Option.bind_some, rects_mk, count_mk, data_mk,
+    min0_mk, min1_mk, max0_mk, max1_mk]
+  have happ : ∀ (c : Int) (rs : List (IGen.RRect F)), 0 ≤ c → c.toNat < rs.length →
+      usedSlots (IGen.RNode.mk (c + 1) (rs.set c.toNat b)) = usedSlots (IGen.RNode.mk c rs) ++ [b] := by
+    intro c rs hc0 hc
+    simp only [usedSlots, rects_mk, count_mk]
+    rw [show (c + 1).toNat = c.toNat + 1 by omega]
+    exact take_set_append rs c.toNat _ hc
+  by_cases hlt : cnt < rcnt
+  · have hlt' : cnt.toNat < rcnt.toNat := by omega
+    have hc : cnt.toNat < rects.length := by omega
+    simp only [hlt, hlt', decide_true, if_true, listSet_nat rects cnt b hl2 hc, Option.bind_some]
+    refine ⟨_, rfl, ⟨_, _, rfl, rfl, ⟨?_, ?_, ?_⟩, ⟨hr1, hr2, hr3⟩, ?_, h6⟩, ?_⟩
+    · simp only [rects_mk, List.length_set]; exact hl1
+    · simp only [count_mk]; omega
+    · simp only [count_mk]; omega
+    · simp only [count_mk]; omega
+    · simp only [data_mk, happ cnt rects hl2 hc]
+  · have hlt' : ¬ cnt.toNat < rcnt.toNat := by omega
+    have hc : rcnt.toNat < rrects.length := by omega
+    simp only [hlt, hlt', decide_false, if_false, Bool.false_eq_true,
+      listSet_nat rrects rcnt b hr2 hc, Option.bind_some]
+    refine ⟨_, rfl, ⟨_, _, rfl, rfl, ⟨hl1, hl2, hl3⟩, ⟨?_, ?_, ?_⟩, ?_, h6.1,
+      fun hz => absurd hz (by simp only [count_mk]; omega)⟩, ?_⟩
+    · simp only [rects_mk, List.length_set]; exact hr1
+    · simp only [count_mk]; omega
+    · simp only [count_mk]; omega
+    · simp only [count_mk]; omega
+    · simp only [data_mk, happ rcnt rrects hr2 hc]
+
+/-- the model's loop when every entry stays left -/
+theorem splitLoop_all0 {β : Type} (cls : β → Nat) : ∀ (m : Nat) (left : List β) (i : Nat)
+    (right eqs : List β), (∀ e ∈ left, cls e = 0) →
+    splitLoop cls m left i right eqs = (left, right, eqs) := by
+  intro m
+  induction m with
+  | zero => intros; rfl
+  | succ m ih =>
+    intro left i right eqs hall
+    by_cases hi : i < left.length
+    · rw [splitLoop_succ _ _ _ _ _ _ hi]
+      simp only [splitStep, List.getElem?_eq_getElem hi, hall _ (List.getElem_mem hi)]
+      exact ih left (i + 1) right eqs hall
+    · exact splitLoop_done _ _ _ _ _ _ hi
+
+end Concrete
+
+end Geo.IGlue.RSplit
+
+namespace Geo.IGlue
+open Geo Geo.IGen Geo.IGlue.RSplit
+open scoped Geo.KNum
+
+/-! ## the split -/
+
+section Main
+variable {F S SR D : Type} [KNum F] [Carrier F] [Compat F] (ops : Ops F S SR D)
+
+theorem split_eq_gen (fuel : Nat) (r right : IGen.RRect F) (nd : IGen.RNode F)
+    (h : r.data = .rNode nd) (hs : SlotsOK nd) (hf : nd.count.toNat + 1 ≤ fuel) :
+    ∃ l' r' ln rn, IGen.rRect_splitLargestAxisEdgeSnap ops fuel r right = some (l', r')
+      ∧ l'.data = .rNode ln ∧ r'.data = .rNode rn ∧ SlotsOK ln ∧ SlotsOK rn
+      ∧ (usedSlots ln, usedSlots rn) = splitEntries rbox (rbox r) (usedSlots nd)
+      ∧ ln.count + rn.count = nd.count
+      ∧ (1 ≤ ln.count → ∀ dflt, rbox l' = recalcBoxes ((usedSlots ln).map rbox) dflt)
+      ∧ (1 ≤ rn.count → ∀ dflt, rbox r' = recalcBoxes ((usedSlots rn).map rbox) dflt)
+      ∧ (ln.count = 0 → ∀ e, ln.rects[0]? = some e → rbox l' = rbox e)
+      ∧ (rn.count = 0 → rbox r' = rbox (zeroRect : IGen.RRect F)) := by
+  obtain ⟨d, a0, a1, c0, c1⟩ := r
+  simp only [data_mk] at h
+  subst h
+  have hs' := hs
+  obtain ⟨hl1, hl2, hl3⟩ := hs'
+  rw [split_unfold]
+  simp only [asRNode_rNode, Option.bind_some]
+  have hax : (rRect_largestAxis ops (RRect.mk (Dyn.rNode nd) a0 a1 c0 c1)).1
+      = maxis (⟨a0, a1, c0, c1⟩ : GBox F) := by
+    rw [largestAxis_eq']; rfl
+  rw [hax]
+  -- the partition loop
+  have hI0 : sInv (rbox right) nd.count
+      ((RRect.mk (Dyn.rNode (IGen.RNode.mk 0 (List.replicate 17 zeroRect)))
+          right.min0 right.min1 right.max0 right.max1 : IGen.RRect F),
+        ([] : List (IGen.RRect F)), Dyn.rNode nd, (0 : Int)) := by
+    refine ⟨nd, _, rfl, rfl, hs, ⟨?_, ?_, ?_⟩, Int.le_refl 0, hl2, ?_, rfl, fun _ => by simp⟩
+    · simp only [rects_mk, List.length_replicate]
+    · simp only [count_mk]; omega
+    · simp only [count_mk]; omega
+    · simp only [count_mk, List.length_nil]; omega
+  obtain ⟨s1, hloop, hI1, he1⟩ := loopW_splitLoop
+    (ρ := IGen.RRect F × IGen.RRect F) (mcls (⟨a0, a1, c0, c1⟩ : GBox F)) splitCond
+    (splitBody (maxis (⟨a0, a1, c0, c1⟩ : GBox F)) a0 a1 c0 c1) sAbs (sInv (rbox right) nd.count)
+    (splitCond_eq (rbox right) nd.count)
+    (splitBody_eq (⟨a0, a1, c0, c1⟩ : GBox F) (rbox right) nd.count hl3)
+    nd.count.toNat fuel (2 * (usedSlots nd).length + 2) _ hI0
+    (by simp only [sAbs, nodeOf, usedSlots_length _ hs]; omega) (by omega)
+    (by rw [usedSlots_length _ hs]; omega)
+  rw [hloop]
+  obtain ⟨rt1, eqs1, d1, i1⟩ := s1
+  obtain ⟨ln1, rn1, g1, g2, g3, g4, g5, g6, g7, g8⟩ := hI1
+  simp only at g1 g2 g5 g6 g7 g8
+  subst g1
+  simp only [Option.bind_some]
+  -- the distribution of the equal entries
+  obtain ⟨s2, hdist, hI2, he2⟩ := loopM_distribute splitEqBody id eAbs
+    (eInv (rbox right) nd.count) (splitEqBody_eq (rbox right) nd.count hl3) eqs1 (Dyn.rNode ln1, rt1)
+    ⟨ln1, rn1, rfl, g2, g3, g4, g7, g8⟩
+  rw [hdist]
+  obtain ⟨d2, rt2⟩ := s2
+  obtain ⟨ln2, rn2, k1, k2, k3, k4, k5, k6⟩ := hI2
+  simp only at k1 k2 k5 k6
+  subst k1
+  simp only [Option.bind_some]
+  -- the two recalcs
+  obtain ⟨l', hrl, hdl, hbl, hzl⟩ := recalc_eq' ops (RRect.mk (Dyn.rNode ln2) a0 a1 c0 c1) ln2 rfl k3
+  obtain ⟨r', hrr, hdr, hbr, hzr⟩ := recalc_eq' ops rt2 rn2 k2 k4
+  rw [hrl]
+  simp only [Option.bind_some]
+  obtain ⟨ld, la, lb, lc, le⟩ := l'
+  simp only [hrr, Option.bind_some]
+  refine ⟨_, _, ln2, rn2, rfl, hdl, hdr.trans k2, k3, k4, ?_, ?_, hbl, hbr, hzl, fun hz => hzr hz _ (k6.2 hz)⟩
+  · -- the central equation
+    rw [splitEntries_mcls]
+    simp only [sAbs, nodeOf, data_mk, g2] at he1
+    have hempty : usedSlots (IGen.RNode.mk 0 (List.replicate 17 (zeroRect : IGen.RRect F))) = [] := by
+      simp [usedSlots]
+    rw [hempty] at he1
+    simp only [Int.toNat_zero] at he1
+    show _ = (match splitLoop (mcls (⟨a0, a1, c0, c1⟩ : GBox F)) (2 * (usedSlots nd).length + 2)
+      (usedSlots nd) 0 [] [] with | (l, r, e) => distributeEquals l r e)
+    rw [← he1]
+    simp only [eAbs, nodeOf, k2, g2, List.map_id] at he2
+    exact he2
+  · -- nothing is lost
+    simpa using k5
+
+/-- **The generated split is the model's split on the used slots** (same entries, same order,
+    on both sides), and each returned rect is the model's `recalcBoxes` of its side when that side
+    is not empty.
+
+    REMARK (empty side).  Go's `recalc` starts from `n.rects[0]` even when `count = 0`; the model's
+    `recalcBoxes [] dflt` is `dflt`.  `split_eq_gen` says what the generated code returns then: for
+    an empty right node the rect of the fresh node's zero slot, `(0,0,0,0)`; for an empty left
+    node the rect of the stale slot 0.  A side can be empty only when the receiver's rect is not
+    the bounding box of its entries (`split_right_empty` below: all entries strictly nearer the
+    min edge); this is why the two rect equations carry the hypothesis `count ≥ 1`. -/
+theorem split_eq (fuel : Nat) (hf : 40 ≤ fuel) (r right : IGen.RRect F) (nd : IGen.RNode F)
+    (h : r.data = .rNode nd) (hs : SlotsOK nd) (hc : 2 ≤ nd.count) :
+    ∃ l' r' ln rn, IGen.rRect_splitLargestAxisEdgeSnap ops fuel r right = some (l', r')
+      ∧ l'.data = .rNode ln ∧ r'.data = .rNode rn ∧ SlotsOK ln ∧ SlotsOK rn
+      ∧ (usedSlots ln, usedSlots rn) = splitEntries rbox (rbox r) (usedSlots nd)
+      ∧ (ln.count ≥ 1 → rbox l' = recalcBoxes ((usedSlots ln).map rbox) (rbox r))
+      ∧ (rn.count ≥ 1 → rbox r' = recalcBoxes ((usedSlots rn).map rbox) (rbox right)) := by
+  have hf' : nd.count.toNat + 1 ≤ fuel := by have := hs.2.2; omega
+  obtain ⟨l', r', ln, rn, e1, e2, e3, e4, e5, e6, _, e8, e9, _, _⟩ :=
+    split_eq_gen ops fuel r right nd h hs hf'
+  exact ⟨l', r', ln, rn, e1, e2, e3, e4, e5, e6, fun hl => e8 hl _, fun hr => e9 hr _⟩
+
+/-- THE EMPTY SIDE, concretely: when every used entry is strictly nearer the min edge of the
+    receiver's rect (class 0 — impossible when that rect is the entries' bounding box), the right
+    node comes back empty and the generated code returns the ZERO rect for it, whereas the model's
+    `recalcBoxes [] dflt` returns `dflt`. -/
+theorem split_right_empty (fuel : Nat) (hf : 18 ≤ fuel) (r right : IGen.RRect F) (nd : IGen.RNode F)
+    (h : r.data = .rNode nd) (hs : SlotsOK nd)
+    (hall : ∀ e ∈ usedSlots nd, mcls (rbox r) e = 0) :
+    ∃ l' r' rn, IGen.rRect_splitLargestAxisEdgeSnap ops fuel r right = some (l', r')
+      ∧ r'.data = .rNode rn ∧ usedSlots rn = []
+      ∧ rbox r' = ⟨KNum.ofNat 0, KNum.ofNat 0, KNum.ofNat 0, KNum.ofNat 0⟩
+      ∧ ∀ dflt, recalcBoxes ((usedSlots rn).map rbox) dflt = dflt := by
+  have hf' : nd.count.toNat + 1 ≤ fuel := by have := hs.2.2; omega
+  obtain ⟨l', r', ln, rn, e1, _, e3, _, e5, e6, _, _, _, _, e11⟩ :=
+    split_eq_gen ops fuel r right nd h hs hf'
+  rw [splitEntries_mcls, splitLoop_all0 _ _ _ _ _ _ hall] at e6
+  have hrn : usedSlots rn = [] := (Prod.mk.inj e6).2
+  have hcnt : rn.count = 0 := by
+    have := usedSlots_length rn e5
+    rw [hrn] at this
+    have := e5.2.1
+    simp only [List.length_nil] at *
+    omega
+  refine ⟨l', r', rn, e1, e3, hrn, e11 hcnt, ?_⟩
+  intro dflt
+  rw [hrn]; rfl
+
+end Main
+
+#print axioms Geo.IGlue.split_eq_gen
+#print axioms Geo.IGlue.split_right_empty
+#print axioms Geo.IGlue.split_eq
 
 end Geo.IGlue
